@@ -228,6 +228,25 @@ fn check_live_point(src: &super::c01::Src, res: i32, st: &mut Stats) -> Result<(
                 lon, lat, res, got, rid, margin, class
             ));
         }
+        // the same place with its longitude written k whole turns away (k = -3..3, derived from the case):
+        // stored coordinates are not always normalised, and the reference handled a few turns exactly
+        let k = ((lon.to_bits() >> 7) % 7) as i64 - 3;
+        if k != 0 {
+            let lon_k = lon + 360.0 * k as f64;
+            let rid_k = refapi::lookup(lon_k, lat, res).map_err(|e| format!("reference lookup failed: {}", e))?;
+            if rid_k == rid {
+                let got_k = a5::lonlat_to_cell(api::lonlat(lon_k, lat), res).map_err(|e| format!("lonlat_to_cell(({}, {}), {}) failed: {}", lon_k, lat, res, e))?;
+                if got_k != rid {
+                    return Err(format!(
+                        "lonlat_to_cell(({}, {}), {}) = {:#x}, the reference release returns {:#x} for this spelling and for longitude {}, and that cell contains the point with margin {:.3e} [class {}]",
+                        lon_k, lat, res, got_k, rid, lon, margin, class
+                    ));
+                }
+                st.hit("live:lookup-asserted(longitude some turns away)");
+            } else {
+                st.hit("live:reference-differs-between-spellings(not asserted)");
+            }
+        }
         if res >= 2 {
             st.nontrivial(&(lon.to_bits(), lat.to_bits(), res));
         }
